@@ -21,7 +21,8 @@ const (
 	dBase2  = "c4e:base2"
 )
 
-func verifDistKeeper() Keeper {
+// verifDistWorld creates the world, the module-account permission table of app.go and the distributor's maccPerms.
+func verifDistWorld() {
 	verifNewWorld()
 	perms := map[string][]string{
 		authtypes.FeeCollectorName: {authtypes.Burner},
@@ -40,7 +41,6 @@ func verifDistKeeper() Keeper {
 	W.auth.addPerm(dVRC)
 	W.auth.addPerm(dGBC)
 	W.auth.addPerm(dGEB)
-	return Keeper{cdc: verifCodec{}, storeKey: &verifStoreKey{types.StoreKey}, bankKeeper: W.bank, accountKeeper: W.auth, authority: "c4e:gov"}
 }
 
 func verifAddr(s string) sdk.AccAddress {
